@@ -26,10 +26,15 @@ Gauss–Bonnet, the monitor), `Proofs/DihedralWalk.lean`, `Proofs/Delaney2dOppos
 map: `χ_top + #boundaries` is even, so the parity monitor is a theorem and Gauss–Bonnet holds
 without a monitor).
 
-Not a theorem (see `open_obligations` in conf/C08.json): "closed without cross-cap ⇔ oriented"
-(the second half of `genusMonitor`; it needs χ ≤ 1 for closed non-orientable connected surfaces) —
-only `isSpherical_iff_spec_conditional` depends on it; the monitor is evaluated on the model for
-every explored symbol.
+`Proofs/PermRee.lean` (Ree's inequality z(φ)+z(α)+z(φα) ≤ n+2 for two permutations without a
+proper invariant equivalence relation), `Proofs/Delaney2dGenus.lean` (χ_top + #boundaries ≤ 2 for
+connected weakly oriented symbols, χ_top ≤ 1 for connected symbols that are not oriented, the
+genus monitor as a theorem, `is_spherical` in the Spec's symbol form).
+
+Not a theorem (see `open_obligations` in conf/C08.json): a connected symbol that is not weakly
+oriented and has a mirror (non-orientable surface with boundary) has at least one cross-cap, i.e.
+χ_top + #boundaries ≤ 1 (proved here: χ_top ≤ 1) — so for such symbols the theorems keep the
+hypothesis that `orbifold_symbol` answers.
 -/
 import DSymVerif.Proofs.Delaney2dGeom
 import DSymVerif.Proofs.Delaney2dChi
@@ -43,6 +48,7 @@ import DSymVerif.Proofs.Delaney2dCorners
 import DSymVerif.Proofs.Delaney2dSpecLink
 import DSymVerif.Proofs.Delaney2dClosedOrientable
 import DSymVerif.Proofs.Delaney2dMapVertices
+import DSymVerif.Proofs.Delaney2dGenus
 
 namespace DSymVerif.C08
 open DSymVerif.DS DSymVerif.D2 DSymVerif.SpecC08
@@ -764,5 +770,87 @@ theorem gauss_bonnet (s : Sym) (g : Good2d s) (o : OrbSym) (hos : orbifoldSymbol
   rw [hos] at ho'
   cases ho'
   exact ⟨K, hK, hv⟩
+
+/-! ### 12. the genus is not negative -/
+
+/-- **multiplying by a transposition changes the number of cycles by exactly one** (`PermRee.z`:
+    the number of classes of `SameCycle`, fixed points included). -/
+theorem transposition_changes_cycles_by_one {β : Type} [Fintype β] [DecidableEq β]
+    (π : Equiv.Perm β) (a b : β) (hne : a ≠ b) :
+    PermRee.z (π * Equiv.swap a b) = PermRee.z π + 1 ∨ PermRee.z (π * Equiv.swap a b) + 1 = PermRee.z π :=
+  PermRee.z_swap π hne
+
+/-- **Ree's inequality for two generators**: if no proper equivalence relation is invariant under
+    the permutations φ and α of a finite set of n points (the group they generate is transitive),
+    then z(φ) + z(α) + z(φα) ≤ n + 2 — the genus of a connected oriented map is not negative. -/
+theorem ree_inequality {β : Type} [Fintype β] [DecidableEq β] (φ α : Equiv.Perm β)
+    (hconn : ∀ t : Setoid β, (∀ x, t x (φ x)) → (∀ x, t x (α x)) → ∀ x y, t x y) :
+    PermRee.z φ + PermRee.z α + PermRee.z (φ * α) ≤ Fintype.card β + 2 :=
+  PermRee.ree φ α hconn
+
+/-- **χ of the capped surface is at most 2**: on a connected valid weakly oriented 2D symbol
+    `χ_top + #boundary components ≤ 2` (Ree's inequality for the oriented map of
+    `chi_plus_boundaries_even`, which is connected because the symbol is). -/
+theorem chi_plus_boundaries_le_two (y : DSymData) (h : ValidSym y) (hdim : y.dim = 2)
+    (hw : y.view.isWeaklyOriented = true) (hc : y.view.isConnected = true) (rep : Rep)
+    (bnds : List (List Nat)) (hb : traceBoundary ⟨y, rep⟩ = .ok bnds) :
+    eulerCharacteristic ⟨y, rep⟩ + (bnds.length : Int) ≤ 2 :=
+  D2.chi_plus_boundaries_le_two h hdim hw hc rep hb
+
+example : exData.view.isConnected = true := by decide +kernel
+
+/-- **a connected symbol that is not oriented has χ_top ≤ 1**: its oriented cover is connected
+    (C05), closed, oriented and has twice the Euler characteristic (from `curvature_orientedCover`,
+    `oriented_cover_census` and `curvature_euler_formula`). -/
+theorem chi_le_one_of_not_oriented (y : DSymData) (rep : Rep) (g : Good2d ⟨y, rep⟩) (hsz : 1 ≤ y.size)
+    (hc : y.view.isConnected = true) (hno : y.view.isOriented = false) :
+    eulerCharacteristic ⟨y, rep⟩ ≤ 1 :=
+  D2.chi_le_one_of_not_oriented g hsz hc hno
+
+example : Good2d ex632 ∧ 1 ≤ exData.size ∧ exData.view.isOriented = false :=
+  ⟨ex632_good, by decide +kernel, by decide +kernel⟩
+
+/-- **the genus monitor is a theorem for connected symbols**: whenever `orbifold_symbol` answers a
+    connected good 2D symbol, `2 − χ_top − #boundaries` is even if the symbol is orientable, and the
+    answer is closed without cross-cap exactly when the D-symbol is oriented. -/
+theorem genus_monitor_holds (s : Sym) (g : Good2d s) (hsz : 1 ≤ s.size)
+    (hc : s.view.isConnected = true) (o : OrbSym) (hos : orbifoldSymbol s = .ok o) :
+    genusMonitor s = true :=
+  genusMonitor_holds g hsz hc hos
+
+/-- **`orbifold_symbol` answers** every connected good 2D symbol that is weakly oriented or has no
+    mirror: the branch `2 − χ_top − #boundaries < 0` is not taken. -/
+theorem orbifold_symbol_answers (s : Sym) (g : Good2d s) (hsz : 1 ≤ s.size)
+    (hc : s.view.isConnected = true)
+    (hcase : s.view.isWeaklyOriented = true ∨ s.view.isLoopless = true) :
+    ∃ o, orbifoldSymbol s = .ok o :=
+  orbifoldSymbol_answers g hsz hc hcase
+
+/-- **the third sentence of the property in the Spec's own terms, without a monitor**: on every
+    connected good 2D symbol on which `orbifold_symbol` answers, `is_spherical` ⇔ K > 0 ∧ ¬
+    `SpecC08.bad` of the model's orbifold symbol, and K is twice its `orbifoldChi`. -/
+theorem isSpherical_iff_spec (s : Sym) (g : Good2d s) (hsz : 1 ≤ s.size)
+    (hc : s.view.isConnected = true) (o : OrbSym) (hos : orbifoldSymbol s = .ok o) :
+    ∃ K, curvature s = .ok K ∧ K.toRat = 2 * chiQ (orbOf o) ∧
+      isSpherical s = .ok (decide (0 < K.toRat) && !bad (orbOf o)) := by
+  obtain ⟨K, o', hK, ho', hv, hs⟩ :=
+    isSpherical_iff_spec_conditional s g hsz (genusMonitor_holds g hsz hc hos)
+  rw [hos] at ho'
+  cases ho'
+  exact ⟨K, hK, hv, hs⟩
+
+/-- **all three sentences for connected symbols that are weakly oriented or have no mirror, with
+    no hypothesis about the answers**: `orbifold_symbol` answers, K = 2·χ(symbol), and
+    `is_spherical` ⇔ K > 0 ∧ ¬bad(symbol). -/
+theorem consistent_total (s : Sym) (g : Good2d s) (hsz : 1 ≤ s.size)
+    (hc : s.view.isConnected = true)
+    (hcase : s.view.isWeaklyOriented = true ∨ s.view.isLoopless = true) :
+    ∃ K o, curvature s = .ok K ∧ orbifoldSymbol s = .ok o ∧ K.toRat = 2 * chiQ (orbOf o) ∧
+      isSpherical s = .ok (decide (0 < K.toRat) && !bad (orbOf o)) := by
+  obtain ⟨o, hos⟩ := orbifoldSymbol_answers g hsz hc hcase
+  obtain ⟨K, hK, hv, hs⟩ := isSpherical_iff_spec s g hsz hc o hos
+  exact ⟨K, o, hK, hos, hv, hs⟩
+
+example : ex632.view.isConnected = true ∧ ex632.view.isWeaklyOriented = true := by decide +kernel
 
 end DSymVerif.C08
